@@ -2,6 +2,7 @@ import Dia.ClientPolite
 import Dia.ClientWire
 import Dia.ClientEmbed
 import Dia.EndToEnd
+import Dia.ClientMultiPolite
 /-! # C11 - Client delivers each answer to the request it belongs to. Property theorems only.
 The client is the labelled transition system of `Dia/Client.lean`; a *run* is any list of labels, i.e. any
 interleaving of the sender, the reader task and an arbitrary peer, at the granularity of the code's critical
@@ -157,6 +158,37 @@ theorem C11_single_is_slice (ls : List Cl.Label) (s' : Cl.St) (h : Cl.run Cl.ini
     run init (.connect :: ls.map liftL) = some (lift s') ∧ (lift s').nC = 1 ∧
     (lift s').status = s'.status ∧ (lift s').hbhOf = s'.hbhOf ∧ (lift s').reader 0 = s'.reader :=
   ⟨embed ls s' h, rfl, rfl, rfl, rfl⟩
+
+/-- **C11, delivery, for a client with any number of connections.** In a run where ids are fresh and the peers answer each
+started request at most once - on *whichever* connection they like, the table is shared - and send nothing else: whatever the
+interleaving of the sender and the readers of all the connections, once every reader has finished processing (nothing left on
+any wire, nothing in any reader's hands) every answer that was emitted sits in the future of the request with that very id.
+(A 17-clause inductive invariant over polite runs, `Dia/ClientMultiPolite.lean`.) -/
+theorem C11_multi_delivery (ls : List Label) (s : St) (hs : Hist) (hp : politeRun init {} ls)
+    (h : runP init {} ls = some (s, hs)) (hw : ∀ c, s.wire c = []) (hr : ∀ c, s.reader c = .running)
+    (m : Cl.Msg) (hm : m ∈ s.emitted) : ∃ w, w < s.nW ∧ s.hbhOf w = m.hbh ∧ s.status w = .got m := by
+  have hi := inv2_run ls inv2_init hp h
+  rcases hi.k_where m hm with ⟨c, h1⟩ | ⟨c, h2⟩ | ⟨c, w, h3⟩ | h4
+  · rw [hw c] at h1; cases h1
+  · rw [hr c] at h2; cases h2
+  · rw [hr c] at h3; cases h3
+  · exact h4
+
+/-- ... and no answer is delivered to more than one future, whichever connections the answers arrived on -/
+theorem C11_multi_once (ls : List Label) (s : St) (hs : Hist) (hp : politeRun init {} ls)
+    (h : runP init {} ls = some (s, hs)) (w w' : Nat) (m : Cl.Msg) (hw : w < s.nW) (hw' : w' < s.nW)
+    (hg : s.status w = .got m) (hg' : s.status w' = .got m) : w = w' := by
+  have hi := inv2_run ls inv2_init hp h
+  have h1 := (hi.base.got_ok w m hw hg).1
+  have h2 := (hi.base.got_ok w' m hw' hg').1
+  exact hi.k_uniq w w' hw hw' (by rw [← h1, ← h2])
+
+/-- non-vacuity of the polite-run hypotheses: the answer to a request written on connection 0 arrives on connection 1 -/
+example : politeRun init {} [.connect, .sendBegin 7, .write, .sendReturn, .connect, .peerEmit 1 (.msg ⟨7, 3⟩),
+    .readerDecode 1, .readerRemove 1, .readerDeliver 1] ∧
+    ∃ s hs, runP init {} [.connect, .sendBegin 7, .write, .sendReturn, .connect, .peerEmit 1 (.msg ⟨7, 3⟩),
+      .readerDecode 1, .readerRemove 1, .readerDeliver 1] = some (s, hs) ∧ s.status 0 = .got ⟨7, 3⟩ := by
+  refine ⟨by simp [politeRun, polite, step, init, upd, Hist.step], _, _, rfl, by decide⟩
 
 /-- non-vacuity: the answer to a request written on connection 0 arrives on connection 1 (the table is shared) -/
 example : ∃ s, run init [.connect, .sendBegin 7, .write, .sendReturn, .connect, .peerEmit 1 (.msg ⟨7, 3⟩),
